@@ -896,8 +896,8 @@ def run(s):
     # fraction goes with which axis).  nonshear.py is one of this property's anchored files: the assumption is discharged here on the real classes by the
     # corresponding obligations of C01 (same obligation code, registered under this property)
     from props import C01
-    C01.run(core.SubSession(s, lambda n: n.replace("C01.", "C04.nonshear_contract."), lambda n: ".prefactors" in n or ".mode_gamma[" in n or "value_isothermal" in n
-                            or n.endswith(".chain")))
+    core.SubSession(s, lambda n: n.replace("C01.", "C04.nonshear_contract."), lambda n: ".prefactors" in n or ".mode_gamma[" in n or "value_isothermal" in n
+                            or n.endswith(".chain")).run(C01)
     # "every requested component receives a value": the request of a calculation is EVERY component the static table lists -- also one whose static value is zero at every
     # volume (its phonon part is not zero when the axes strain differently)
     def request_is_every_column():
